@@ -8,6 +8,7 @@ import hashlib
 import json
 import multiprocessing
 import os
+import subprocess
 import time
 import traceback
 
@@ -203,6 +204,24 @@ class Real:
             if res.code != 0:
                 self.update_defects.append(("out-delete-failed", "%r" % res))
             self.last_update = None
+        elif k in ("RUN", "RUNF"):
+            # surroundings (no effect in the model): the records of a successful / failed run appear on disk
+            r.set_script("a", "build", ["out " + b"some output\n".hex(), "exit %d" % (0 if k == "RUN" else 1)])
+            res = r.mr("run", "-c", "build", "-t", "a", "b", env=r.trace_env())
+            if res.json() is None:
+                raise common.EngineError("surrounding run printed no document: %r" % res)
+            r.set_script("a", "build", ["exit 0"])
+            r.clear_traces()
+        elif k == "LSN":
+            # surroundings: from now on a `log tail` listener is attached
+            lis = subprocess.Popen([common.MONORAIL, "log", "tail", "--stdout", "--stderr"], cwd=r.dir, env=self.s.env(),
+                                   stdout=subprocess.DEVNULL, stderr=subprocess.DEVNULL, start_new_session=True)
+            self.s.popens.append(lis)
+            t_end = time.time() + 10
+            while not sc.port_listening(r.log_port):
+                if lis.poll() is not None or time.time() > t_end:
+                    raise common.EngineError("log tail did not start")
+                time.sleep(0.02)
 
     # ---- observations of the real state
     def worktree(self):
@@ -812,10 +831,10 @@ def state_task(task):
 
 
 RULES = {
-    "C02": "plus an odd-file-name family (18 names: leading/trailing spaces, tab, newline, quote, backslash, non-ASCII, 200 characters, leading dash, glob characters), each untracked and tracked-modified; plus a many-pending-paths family (1..40 paths in quick, up to 600 in thorough, of mixed sizes, untracked / staged / modified / deleted at once); plus the size family of C07 judged on the reported change list (a pending file edited beyond a buffer/read boundary must be listed, restored content must be filtered); explicit-state BFS over operation sequences {write(p,c), delete(p), mv, git mv, add -A, commit, checkpoint update [-p] [--id k], checkpoint delete, out delete --all} on paths {a/f.txt, 'b/n e-acute.txt', b/m.txt}; state = (commits, index, worktree, checkpoint) with commit ids canonicalised to indices; each new state is materialised in a real repository (real git, real monorail) and, when a checkpoint exists, `analyze --changes` for the default range and every ordered pair of commits must equal the statement's set (content differs from base, plus untracked, minus pending-checksum matches), verbatim and sorted",
-    "C07": "plus an odd-file-name family (18 names: leading/trailing spaces, tab, newline, quote, backslash, non-ASCII, 200 characters, leading dash, glob characters), each untracked and tracked-modified; plus a many-pending-paths family (1..40 paths in quick, up to 600 in thorough, of mixed sizes, untracked / staged / modified / deleted at once); plus the update-pair family of C19 judged on `analyze` after the second update -p; plus a size family: a pending file (untracked / modified / staged) of each size around the checksum buffer and read boundaries (65535..65537, 200000, 2 MiB+1; thorough more) must be clean after update -p and re-flagged by a one-byte edit at each boundary offset, an append and a truncation; same BFS; in every state reached by `checkpoint update -p`: analyze reports no targets and run starts nothing; then from that state every single later edit (fresh content for each path, new files, deletion of committed files; thorough: every pair) must re-flag exactly the targets of the edited paths, and a second update -p must clear them",
-    "C19": "plus a many-pending-paths family (1..40 paths in quick, up to 600 in thorough, of mixed sizes, untracked / staged / modified / deleted at once); plus an update-pair family: worktree set to pending configuration S1 (each of a/f.txt, b/m.txt, a/g.txt absent or with one of two contents), `update -p`, worktree set to S2, second update (-p or plain) for every pair (S1,S2) (quick: at most two pending paths each): show must equal what the second update printed; same BFS; from every state (quick: every state whose last operation touched the store) a suffix probe update, update -p, delete: show follows each update and afterwards no checkpoint exists; in every state `checkpoint show` must equal what the last successful update printed (or fail when deleted / never set); updates must record HEAD or the given --id; without a checkpoint analyze reports checkpointed=false with every target and run covers every target",
-    "C05": "same BFS (part B of C05): in every state `analyze --target-groups` then `run -c build` in trace mode must agree on groups and started targets",
+    "C02": "plus 9 sequences with surroundings outside the model (records of earlier successful / failed runs on disk, a log tail listener attached); plus an odd-file-name family (18 names: leading/trailing spaces, tab, newline, quote, backslash, non-ASCII, 200 characters, leading dash, glob characters), each untracked and tracked-modified; plus a many-pending-paths family (1..40 paths in quick, up to 600 in thorough, of mixed sizes, untracked / staged / modified / deleted at once); plus the size family of C07 judged on the reported change list (a pending file edited beyond a buffer/read boundary must be listed, restored content must be filtered); explicit-state BFS over operation sequences {write(p,c), delete(p), mv, git mv, add -A, commit, checkpoint update [-p] [--id k], checkpoint delete, out delete --all} on paths {a/f.txt, 'b/n e-acute.txt', b/m.txt}; state = (commits, index, worktree, checkpoint) with commit ids canonicalised to indices; each new state is materialised in a real repository (real git, real monorail) and, when a checkpoint exists, `analyze --changes` for the default range and every ordered pair of commits must equal the statement's set (content differs from base, plus untracked, minus pending-checksum matches), verbatim and sorted",
+    "C07": "plus 9 sequences with surroundings outside the model (records of earlier successful / failed runs on disk, a log tail listener attached); plus an odd-file-name family (18 names: leading/trailing spaces, tab, newline, quote, backslash, non-ASCII, 200 characters, leading dash, glob characters), each untracked and tracked-modified; plus a many-pending-paths family (1..40 paths in quick, up to 600 in thorough, of mixed sizes, untracked / staged / modified / deleted at once); plus the update-pair family of C19 judged on `analyze` after the second update -p; plus a size family: a pending file (untracked / modified / staged) of each size around the checksum buffer and read boundaries (65535..65537, 200000, 2 MiB+1; thorough more) must be clean after update -p and re-flagged by a one-byte edit at each boundary offset, an append and a truncation; same BFS; in every state reached by `checkpoint update -p`: analyze reports no targets and run starts nothing; then from that state every single later edit (fresh content for each path, new files, deletion of committed files; thorough: every pair) must re-flag exactly the targets of the edited paths, and a second update -p must clear them",
+    "C19": "plus 9 sequences with surroundings outside the model (records of earlier successful / failed runs on disk, a log tail listener attached); plus a many-pending-paths family (1..40 paths in quick, up to 600 in thorough, of mixed sizes, untracked / staged / modified / deleted at once); plus an update-pair family: worktree set to pending configuration S1 (each of a/f.txt, b/m.txt, a/g.txt absent or with one of two contents), `update -p`, worktree set to S2, second update (-p or plain) for every pair (S1,S2) (quick: at most two pending paths each): show must equal what the second update printed; same BFS; from every state (quick: every state whose last operation touched the store) a suffix probe update, update -p, delete: show follows each update and afterwards no checkpoint exists; in every state `checkpoint show` must equal what the last successful update printed (or fail when deleted / never set); updates must record HEAD or the given --id; without a checkpoint analyze reports checkpointed=false with every target and run covers every target",
+    "C05": "plus 9 sequences with surroundings outside the model (records of earlier successful / failed runs on disk, a log tail listener attached); same BFS (part B of C05): in every state `analyze --target-groups` then `run -c build` in trace mode must agree on groups and started targets",
 }
 
 
@@ -908,6 +927,18 @@ def bfs(prop, tier, depth, wall_cap=None):
             agg["evaluations"] += r["evals"]
             agg["violations"].extend(r["violations"])
         agg["foreign_cwd_cases"] = len(seqs)
+        # the same invariants with surroundings the model does not know about: records of earlier
+        # successful / failed runs on disk, a listener attached
+        sur = [[["RUN"]], [["RUN"], ["CPU"]], [["CPUP"], ["RUNF"], ["W", "a/f.txt", "2"]], [["RUN"], ["CPU"], ["RUNF"], ["CPD"]],
+               [["LSN"], ["W", "b/m.txt", "1"], ["CPUP"], ["RUN"]], [["CPU"], ["RUNF"], ["OUTD"], ["CPUP"]],
+               [["RUNF"], ["W", "a/f.txt", "2"], ["CPUP"]], [["W", "b/m.txt", "2"], ["RUN"], ["CPUP"], ["RUNF"]],
+               [["LSN"], ["RUNF"], ["CPU"], ["W", "a/f.txt", "1"]]]
+        for r in common.pmap(state_task, [(prop, tier, ops) for ops in sur]):
+            if "engine_error" in r:
+                raise common.EngineError(r["engine_error"])
+            agg["evaluations"] += r["evals"]
+            agg["violations"].extend(r["violations"])
+        agg["surroundings_cases"] = len(sur)
     if prop in ("C07", "C19", "C02"):
         counts = [1, 15, 16, 17, 40] if tier == "quick" else [1, 2, 7, 15, 16, 17, 31, 32, 33, 40, 64, 65, 200, 600]
         if prop == "C02":
